@@ -16,3 +16,21 @@ claim("C27", "TLC model checking of spec/Constrain.tla (least fixpoint, feasible
       "exhaustive within the bounded scope of module Constrain for the design; every explored behaviour and every "
       "observed real execution is decided by TLC against the same statements",
       TB)
+
+claim("C01", "TLC model checking of spec/Constrain.tla (Strict, AtLeastPlus; incl. the abstract image of float "
+      "absorption) + replay into util._constrain_ages + TLC trace validation (ConstrainTrace on ranks: Strict, "
+      "AtLeastPlus, MutationBounds) of real date() calls over methods x options x time scales 1e-6..1e12",
+      "every explored model behaviour and every observed real date() result is decided by TLC; 'valid tree "
+      "sequence' is tskit's own integrity check on the returned tables",
+      TB)
+claim("C03", "TLC model checking of spec/Constrain.tla over all fixed-node sets (ChildlessFixedKept, "
+      "FixedNeverMovedByLsq, FixedOnlyMinimallyPushed) + replay into util._constrain_ages + TLC trace validation "
+      "(ConstrainTrace) of real date() calls on inputs with historical and internal samples",
+      "as C01; the time handed to the constraint step for each sample is also required to be its input time",
+      TB)
+claim("C24", "TLC model checking of spec/Sweep.tla (the edge-diff loop of _count_mutations, plain / size-biased / "
+      "explicit sample set) against a declarative tally on every small tree sequence + exact replay of generated "
+      "and simulated behaviours into count_mutations / mutation_span_array on real tskit tree sequences",
+      "exhaustive in the bounded TSGen scope for the design; the code is compared exactly (integers) with the "
+      "specification's final state on every replayed behaviour; TreeSeq's model of tskit is checked against tskit",
+      TB)
